@@ -216,6 +216,16 @@ def _run_case(arg):
             (cwd / "o").mkdir()
             tp, opth, outp = cwd / "t" / "my_theory.yaml", cwd / "o" / "my_operator.yaml", cwd / "o" / "eko.tar"
             args = ["t/my_theory.yaml", "o/my_operator.yaml"]
+        elif form == 5:
+            # two-argument form, the operator card being a symbolic link to a card shared between run folders:
+            # the documented destination is next to the path that was given
+            (cwd / "t").mkdir()
+            (cwd / "o").mkdir()
+            (cwd / "common").mkdir()
+            (cwd / "common" / "operator.yaml").write_text(yaml.safe_dump(op_raw), encoding="utf-8")
+            os.symlink("../common/operator.yaml", cwd / "o" / "my_operator.yaml")
+            tp, opth, outp = cwd / "t" / "my_theory.yaml", cwd / "o" / "my_operator.yaml", cwd / "o" / "eko.tar"
+            args = ["t/my_theory.yaml", "o/my_operator.yaml"]
         elif form == 3:
             (cwd / "t").mkdir()
             (cwd / "o").mkdir()
@@ -227,7 +237,8 @@ def _run_case(arg):
             tp, opth, outp = cwd / "job" / "theory.yaml", cwd / "job" / "operator.yaml", None
             args = [] if form == 0 else ["job/theory.yaml", "job/operator.yaml", "a.tar", "b.tar"]
         tp.write_text(yaml.safe_dump(th_raw), encoding="utf-8")
-        opth.write_text(yaml.safe_dump(op_raw), encoding="utf-8")
+        if form != 5:
+            opth.write_text(yaml.safe_dump(op_raw), encoding="utf-8")
         rc, so, se = _run(["run"] + args, cwd)
         out["nontrivial"] = True
         wit.update(args=args, returncode=rc, stderr=se[-600:])
@@ -240,7 +251,7 @@ def _run_case(arg):
                 out["ok"] = 1
             out["sample"] = dict(form=form, returncode=rc)
             return out
-        out["hits"][f"run_form{form}"] = 1
+        out["hits"]["run_form2_symlinked_card" if form == 5 else f"run_form{form}"] = 1
         if rc != 0:
             out["viol"].append((f"C49/run/form{form}/fails", f"`eko run {' '.join(args)}` exited {rc}: {se.strip().splitlines()[-1] if se.strip() else ''}", wit))
             return out
@@ -377,7 +388,7 @@ def run(ck):
     for c in range(ncards):
         for form in (1, 2, 3):
             items.append(("run", ck.seed, form, 10 * c + form + 100 * (ck.seed % 50)))
-    items += [("run", ck.seed, 0, 900), ("run", ck.seed, 4, 901)]
+    items += [("run", ck.seed, 0, 900), ("run", ck.seed, 4, 901), ("run", ck.seed, 5, 905 + 100 * (ck.seed % 50))]
     items += [("cards", ck.seed, j) for j in range(ck.n(6, 40))]
     for it, st, val in jobs.pmap(_one, items, timeout=ck.n(1500, 3000)):
         if st != "ok":
